@@ -4,7 +4,7 @@ generated bundle, not from rqalpha's look-ups) and the strategy's calls after or
 financing).  The model runs freely from there: validators, reserved cash, matching, fees, trades, account bookkeeping, corporate
 actions and settlement are all its own.  After every input the model's accounts, portfolio units and open-order list are compared with
 what the implementation showed at the same point; at the end every order's final state and the sequence of published order events."""
-import datetime
+import datetime, re
 import vlib, bundle as B, acct_sync, match_sync
 from vlib import f2b, b2f, of2b
 
@@ -30,8 +30,8 @@ def supported(tr):
     minute = cfgk.get("frequency", "1d") == "1m"
     if sim.get("matching_type", "current_bar") not in (("current_bar", "vwap", "next_bar") if minute else ("current_bar", "vwap")):
         return "matching_type"
-    if S.get("_trade_handler_acts") or S.get("_c06_plans"):
-        return "strategy_acts_inside_trade_handler"
+    if any(c.get("from_trade_handler") for c in tr.calls):
+        return "strategy_acts_inside_trade_handler"        # the strategy sent or cancelled an order from inside a TRADE handler: the matching pass was re-entered
     if S.get("trf"):
         return "share_conversion"
     if not tr.rec.inputs or tr.rec.inputs[0]["k"] != "P":
@@ -284,11 +284,22 @@ def run_sync(ctx, corrs, tr, ix):
         run_level(ctx, {k[:-4]: v for k, v in corrs.items() if k.endswith("_api")}, tr, ix, True)
 
 
+DAY_1D = re.compile(r"(PBAc*Rc*TS)+$")
+DAY_1M = re.compile(r"(PBAc*(MRc*)+TS)+$")
+
+
 def run_level(ctx, corrs, tr, ix, api_level):
     line, items = build_request(tr, ix, api_level)
     if line is None:
         ctx.stats["world_skipped:" + items] += 1
         return
+    if not api_level and "grammar" in corrs:
+        # the hypothesis of the day-structure theorems (RQ/Lemmas/WorldF.lean): what drives a real run has the executor's shape, and the strategy's
+        # calls fall inside open_auction / handle_bar only
+        word = "".join(it["k"] if it["k"] in "PBARTSM" else "c" for it in items)
+        minute = tr.cfg.get("frequency", "1d") == "1m"
+        ok = bool((DAY_1M if minute else DAY_1D).match(word))
+        corrs["grammar"].add(ok, {"days": word.count("P"), "calls": word.count("c")} if ok else {"inputs": word[:400], "run_seed": getattr(tr, "run_seed", None)})
     if api_level:
         ctx.stats["world_api_calls_sized_by_the_model"] += len([1 for it in items if it["k"] == "K"])
         for it in items:
@@ -384,6 +395,8 @@ def make_corrs(ctx):
                               "every account (all ledger fields and observers), portfolio units and the open-order list after each input"),
             "events": ctx.corr("World: published order events", "sequence of ORDER_* and TRADE events (order, quantity, price, fee) of the whole run"),
             "orders": ctx.corr("World: final order states", "status, filled quantity, average price and cost of every order the broker accepted"),
+            "grammar": ctx.corr("World: inputs follow the executor's day structure", "the recorded inputs of every run form the word (P B A c* R c* T S)+ — per minute bar (M R c*)+ at minute "
+                                "frequency — where c is a strategy call: the shape `Day.inputs` of RQ/Lemmas/WorldF.lean, the hypothesis of the quiet-books theorems"),
             "state_api": ctx.corr("World (API level): state after every input", "the same whole runs with the calls of the order-sizing APIs handed to the model AS CALLS (order_shares / order_lots / "
                                   "order_value / order_percent / order_target_value / order_target_percent / order / order_to on stocks, buy/sell open/close on futures): the model sizes each call on its own "
                                   "state (holding, closable, cash, total value, last price) and submits what it created; compared as above"),
